@@ -8,7 +8,7 @@ is isolated from decryption):
   layer W  initial sequence numbers that make the sequence space wrap at every byte of the stream
 End to end (real decryption through run()):
   layer E  per version class: segmentations, single duplicates, adjacent transpositions,
-           displacements by 2, wrapping ISNs, full-duplex merges of the two directions (<=3 context switches) - against the peer model's plaintext
+           displacements by 2, wrapping ISNs, equal ISNs in both directions, full-duplex merges of the two directions (<=3 context switches) - against the peer model's plaintext
 C08's prefix clause is asserted in every non-terminal state of layer B (reported by C08 too).
 """
 import itertools
@@ -66,7 +66,7 @@ def cases(tier, seed):
     for lens in streams(12 if q else 17):
         yield {"layer": "A", "lens": list(lens)}
     # (24,): a record whose outstanding part is longer than everything the other direction still sends
-    bstreams = [(0, 1), (1, 3), (3, 0), (0, 0, 0), (24,)] if q else [(0, 1), (1, 3), (3, 0), (0, 0, 0), (1, 0, 3), (3, 3), (24,), (1, 24)]
+    bstreams = [(0, 1), (1, 3), (3, 0), (0, 0, 0), (24,), (1, 0, 3)] if q else [(0, 1), (1, 3), (3, 0), (0, 0, 0), (1, 0, 3), (3, 3), (24,), (1, 24)]
     for lens in bstreams:
         L = sum(5 + l for l in lens)
         maxseg = (3 if q else 4) if L < 20 else 3
@@ -441,6 +441,28 @@ def run_e(case):
             pk.append(lists[i][pos[i]])
             pos[i] += 1
         run_pk(pk, {"layer": "E", "class": cname, "variant": "full_duplex", "schedule": "".join("cs"[i] for i in sched), "reordered": False}, conn=conn2)
+    # adjacent transpositions inside records that span several segments (mss 150): the pieces of one record arrive out of order
+    mid = scen.tls_packets(conn, mss=150)
+    midx = [i for i, p in enumerate(mid) if p.payload]
+    seen_dir = set()
+    for a, i in enumerate(midx):
+        same = [j for j in midx if j > i and mid[j].dir == mid[i].dir]
+        first_of_dir = mid[i].dir not in seen_dir
+        seen_dir.add(mid[i].dir)
+        if not same or same[0] != i + 1:
+            continue                       # only segments that directly follow each other in the capture
+        pk = list(mid)
+        pk[i], pk[i + 1] = pk[i + 1], pk[i]
+        early = mid[i + 1]
+        run_pk(pk, {"layer": "E", "class": cname, "variant": "transpose_mss150", "reordered": True,
+                    "early_segment_starts_at_record_boundary": early.start in bounds[early.dir],
+                    "early_segment_ends_at_record_boundary": early.end in bounds[early.dir],
+                    "first_segment_of_direction_displaced": first_of_dir})
+    # both endpoints chose the SAME initial sequence number: segments of the two directions carry equal sequence numbers
+    for isn in (5000, (1 << 32) - 200):
+        for mss in (1460, 300):
+            run_pk(scen.tls_packets(conn, isn=(isn, isn), mss=mss),
+                   {"layer": "E", "class": cname, "variant": "same_isn_both_directions", "wrap": isn > 1 << 31, "reordered": False})
     # wrapping initial sequence numbers
     for isn in ((1 << 32) - 2, (1 << 32) - 200, (1 << 32) - 700):
         pk = scen.tls_packets(conn, isn=(isn, isn - 5), mss=300)
